@@ -39,10 +39,8 @@ theorem toPayload_typ_ne3 {m : RtmpMsg} {typ : Nat} {body : Bytes} (hs : Sendabl
     all_goals first | (simp only [Except.ok.injEq, Prod.mk.injEq] at h; omega) | (simp at h)
   | _ => simp only [toPayload, Except.ok.injEq, Prod.mk.injEq] at h; omega
 
-open Rml Rml.Bytes Rml.Chunk Rml.Amf0 Rml.Msgs Rml.Sess Rml.Emit
-
 /-- the results `rs` of a step from `s` to `s'` contain exactly the packets of a well-formed serializer
-    history from `s.ser` to `s'.ser`, in order, each carrying a sendable RTMP message -/
+    history from `s.ser` to `s'.ser`, in order, none of them an Acknowledgement (type id 3) -/
 def Em (s s' : Srv.State) (rs : List Srv.Res) : Prop :=
   ∃ xs, Emits s.ser s'.ser xs ∧ xs.map (·.1) = outs rs ∧ ∀ x ∈ xs, x.2.typ ≠ 3
 
